@@ -10,6 +10,14 @@ PROPS = {
         text='Verus proves, for all diagrams/levels/cache behaviours, that the real bodies of terminal_bin, reduce, apply_not, apply_bin, apply_ite return a well-formed diagram whose semantics is the propositional connective of the operand semantics',
         note='manager + apply-cache contracts assumed (prelude); partial correctness; sequential recursor; see evidence.assumptions',
     ),
+    'C10': dict(
+        verus=[],
+        kani=['mtbdd_terminal'],
+        level='proof',
+        design_ref='6/C10',
+        text='Kani proves the real I64/F64 terminal arithmetic against a specification written from the property statement, for all operand values (loop-free harnesses over the full domain); quotient/float value checks that need a second divider/FPU circuit are bounded and labelled so',
+        note='CBMC bit-precise semantics and IEEE float model; bounded sub-harnesses listed in evidence.assumptions',
+    ),
 }
 
 TRUSTED_BASE_COMMON = [
